@@ -195,6 +195,29 @@ def _p_surrogate(fmt):
 PAYLOAD = {"an image checksum value given as bytes": _p_image_checksum_bytes, "variant keys of mixed types in Images.images": _p_images_mixed_keys,
            "an rpm signing key given as bytes": _p_rpms_sigkey_bytes, "a module RPM list given as a set": _p_modules_rpm_set,
            "an extra file size that is no number": _p_extra_files_size_object, "a variant arch given as bytes": _p_composeinfo_arch_bytes}
+
+
+def _p_extreme(fmt, value):
+    """numbers of the right type at the rim of what anything downstream (the OS, time functions) can take"""
+    def make():
+        o = samples.build(fmt, 1)
+        if fmt == "discinfo":
+            o.timestamp = value
+        elif fmt == "treeinfo":
+            o.tree.build_timestamp = value
+        elif fmt == "images":
+            im = sorted(o.images["Server"]["x86_64"], key=lambda i: i.path)[0]
+            im.mtime = int(value) if value == value and abs(value) != float("inf") else 10 ** 40
+            im.size = 10 ** 40
+        elif fmt == "composeinfo":
+            o.compose.respin = 10 ** 40
+        return o
+    return make
+
+
+for _fmt in ("discinfo", "treeinfo", "images", "composeinfo"):
+    for _n, _v in (("1e30", 1e30), ("-1e30", -1e30), ("inf", float("inf")), ("nan", float("nan"))):
+        PAYLOAD["%s: a number of the right type beyond any real time or size (%s)" % (_fmt, _n)] = _p_extreme(_fmt, _v)
 for _fmt in samples.FORMATS:
     PAYLOAD["%s: a text value with a lone surrogate (undecodable file name)" % _fmt] = _p_surrogate(_fmt)
 
